@@ -19,6 +19,8 @@ func genC08(r *simrt.Rand, tier string, idx int) *hx.Program {
 	p := &hx.Program{P: map[string]int64{}}
 	p.P["seg"] = []int64{1, 64, 100, 150, 257, 400}[r.Intn(6)]
 	p.P["sticky"] = []int64{0, 50, 90}[r.Intn(3)]
+	p.P["timeskip"] = []int64{0, 0, 5, 40}[r.Intn(4)] // per mille of the scheduling steps at which time passes although tasks are runnable
+	p.P["skipmax_ms"] = []int64{50, 2000, 30000}[r.Intn(3)]
 	p.P["workers"] = []int64{1, 2, 10}[r.Intn(3)]
 	if r.Pct(20) {
 		p.P["ret_msgs"] = int64(4 + r.Intn(30))
